@@ -24,6 +24,11 @@ func (c RapidChooser) Pick(n int) int {
 // TreeGen generates syntax trees.
 type TreeGen struct {
 	T *rapid.T
+	// Names overrides the pool of variable / function names.
+	Names []string
+	// Blind selects leaves and loops for programs that are going to be executed:
+	// small literals next to extreme ones, while loops bounded by a counter.
+	Blind bool
 }
 
 var treeNames = []string{"a", "b", "foo", "x", "iff", "truex", "z", "elsee", "fo", "returnn"}
@@ -33,9 +38,38 @@ var treeInts = []int{0, 1, 2, 7, 10, 99, 1 << 31, 1<<63 - 1}
 
 func (g *TreeGen) pick(n int) int { return rapid.IntRange(0, n-1).Draw(g.T, "t") }
 
-func (g *TreeGen) name() node.Name { return node.Name(treeNames[g.pick(len(treeNames))]) }
+func (g *TreeGen) name() node.Name {
+	if g.Names != nil {
+		return node.Name(g.Names[g.pick(len(g.Names))])
+	}
+	return node.Name(treeNames[g.pick(len(treeNames))])
+}
+
+var blindInts = []int{0, 1, 2, 3, 7, 63, 64, 1 << 31, 1<<63 - 1}
+var blindFloats = []float64{0.0, 1.5, 2.0, 1e-320, 1e308}
+var blindStrings = []string{"", "ab", "x", "12", "1.5", "a\"b"}
+
+func (g *TreeGen) blindLeaf() node.Type {
+	switch g.pick(8) {
+	case 0, 1:
+		return node.Int(blindInts[g.pick(len(blindInts))])
+	case 2:
+		return node.Float(blindFloats[g.pick(len(blindFloats))])
+	case 3:
+		return node.Bool(g.pick(2) == 0)
+	case 4:
+		return node.String(blindStrings[g.pick(len(blindStrings))])
+	case 5:
+		return node.List{Elems: make([]node.Type, 0)}
+	default:
+		return g.name()
+	}
+}
 
 func (g *TreeGen) leaf() node.Type {
+	if g.Blind {
+		return g.blindLeaf()
+	}
 	switch g.pick(6) {
 	case 0:
 		return node.Int(treeInts[g.pick(len(treeInts))])
@@ -116,6 +150,14 @@ func (g *TreeGen) Stmt(d int) node.Type {
 	case 1:
 		return node.IfElse{Condition: g.Expr(d - 1), TrueCase: g.Block(d - 1), FalseCase: g.Block(d - 1)}
 	case 2:
+		if g.Blind && g.pick(8) != 0 {
+			// a loop that ends: w counts up to a small bound
+			body := node.Block{Body: []node.Type{
+				node.Assign{VarRef: node.Name("w"), Value: node.BinOp{Op: "+", Left: node.Name("w"), Right: node.Int(1)}},
+				g.Stmt(d - 1),
+			}}
+			return node.While{Condition: node.BinOp{Op: "<", Left: node.Name("w"), Right: node.Int(2 + g.pick(2))}, Body: body}
+		}
 		return node.While{Condition: g.Expr(d - 1), Body: g.Block(d - 1)}
 	case 3:
 		k := 1 + g.pick(3)
